@@ -25,9 +25,9 @@ func init() {
 }
 
 type c15Case struct {
-	Op    string        `json:"op"`    // Put, Expire, GetPut, Incr, Decr, IncrByFloat, LockUnlock, LockLease, Delete
-	Opts  string        `json:"opts"`  // e.g. NX+PX
-	Prior string        `json:"prior"` // absent, present, present+ttl, int, int+ttl, nonint, float
+	Op    string        `json:"op"`               // Put, Expire, GetPut, Incr, Decr, IncrByFloat, LockUnlock, LockLease, Delete
+	Opts  string        `json:"opts"`             // e.g. NX+PX
+	Prior string        `json:"prior"`            // absent, present, present+ttl, int, int+ttl, nonint, float
 	N     int           `json:"n,omitempty"`      // Delete: number of keys
 	Own   int           `json:"owners,omitempty"` // Delete: number of distinct owners
 	Miss  bool          `json:"some_missing,omitempty"`
